@@ -121,7 +121,10 @@ def oracle(scn, S):
         else:
             mode = {"xz-dc": ["-dc"], "xz-t": ["-t"], "xz-d": ["-dk"]}[tool]
             argv = [base.tool("xz")] + mode + list(scn["opts"]) + ops_before + [name] + ops_after
-        rc, out, err = base.run_cmd([a.encode() for a in argv], stdin=b"", env=base.clean_env(), cwd=d)
+        env = base.clean_env({scn["env"][0]: scn["env"][1]} if scn.get("env") and tool != "xzdec" else None)
+        if scn.get("env") and tool != "xzdec":
+            S.count("env:" + scn["env"][0])
+        rc, out, err = base.run_cmd([a.encode() for a in argv], stdin=b"", env=env, cwd=d)
         if rc is None:
             S.inconclusive_count("timeout")
             return
@@ -162,7 +165,7 @@ def oracle(scn, S):
         if tool == "xz-d" and rc != 0 and delivered is not None and delivered != data:
             # C17 territory (incomplete target kept); counted here, judged there
             S.count("note:target-kept-after-failure")
-        S.nontrivial([scn["file"], scn["damage"], tool, scn["opts"], scn["before"], scn["after"]],
+        S.nontrivial([scn["file"], scn["damage"], tool, scn["opts"], scn.get("env"), scn["before"], scn["after"]],
                      sample={"argv": what, "damage": scn["damage"], "exit": rc, "delivered": None if delivered is None else len(delivered), "original": len(data)})
     finally:
         S.rm_dir(d)
@@ -182,9 +185,12 @@ def scenarios(draw):
         kinds = ["truncate"]          # .lzma carries no integrity check: only the "ends inside a stream" clause applies
     dmg = {"kind": draw(st.sampled_from(kinds)), "pos": draw(st.integers(0, 1 << 20)), "bit": draw(st.integers(0, 7)), "len": draw(st.integers(0, 40)), "seed": draw(st.integers(0, 1000))}
     tool = draw(st.sampled_from(["xz-dc", "xz-dc", "xz-t", "xz-d", "xzdec"])) if fmt == "xz" else draw(st.sampled_from(["xz-dc", "xz-t", "xz-d"]))
-    opts = draw(st.lists(st.sampled_from(["-q", "-Q", "-qq", "-v", "--no-warn", "--quiet"]), max_size=3, unique=True))
+    # options that must not change the verdict on a damaged file (compression-only settings are legal and ignored when decoding)
+    opts = draw(st.lists(st.sampled_from(["-q", "-Q", "-qq", "-v", "--no-warn", "--quiet", "--check=crc32", "--check=sha256", "-Ccrc64", "--check=none", "-T2", "-T0", "-6e",
+                                          "--no-sparse", "--format=auto", "--lzma2=dict=1MiB", "--block-size=65536"]), max_size=3, unique=True))
+    envopt = draw(st.sampled_from([None, None, None, None, ["XZ_OPT", "--check=crc32"], ["XZ_DEFAULTS", "--check=sha256 -T2"], ["XZ_OPT", "-q -Q"]]))
     extra = st.lists(st.sampled_from(["dir", "unknown-suffix"]), max_size=2, unique=True)
-    return {"file": f, "damage": dmg, "tool": tool, "opts": opts, "before": draw(extra), "after": draw(extra)}
+    return {"file": f, "damage": dmg, "tool": tool, "opts": opts, "env": envopt, "before": draw(extra), "after": draw(extra)}
 
 
 if __name__ == "__main__":
